@@ -21,3 +21,17 @@ CLAIMED['C04'] = dict(
   text='Held on every request sequence executed: all sequences up to length 2 (quick) / 3 (thorough) over the per-type alphabet (names x nonce kind x error_detail + push) for EDS, RDS, CDS, LDS, NDS on bare and conformantly warmed streams, SotW and delta, plus thousands of random mixed sequences; each stimulus classified must-respond / must-be-silent / unspecified by the model and compared with what the server did before the barrier echo; auto-ACK rounds bound the loop clause; server record compared with the last request for conformant sequences.',
   note='Trusted: the protocol model (our reading of the property; unspecified reactions are accepted either way), the barrier ordering argument (one goroutine per connection handles requests and pushes in order), FakeDiscoveryServer wiring. Not driven: ECDS/SDS/WDS types, proxies with custom generators, real gRPC transport, concurrency between the request loop and pushes beyond the push letter.',
 )
+
+CLAIMED['C09'] = dict(
+  category='exploration',
+  technique='runtime monitoring: the real IstioCA behind the real CA gRPC handler and the real authenticators (k8s TokenReview, OIDC against a loopback issuer, client certificate, XFCC, node authorizer) is driven with structured hostile credentials/CSRs/metadata; every returned leaf is parsed and compared with the identity set derived independently from the credential; panics and child crashes are violations',
+  text='Held (up to listed known findings) on every request executed: 183 enumerated hostile shapes x 4 CA configurations (self-signed, RSA/ECDSA/P384 plugged-in incl. a soon-expiring signer) plus thousands of PRNG requests. For each issued leaf: SAN set equals the authenticated identity set (or the authorised impersonated identity), not a CA, binds the CSR key, NotAfter within max TTL and signer expiry, chain verifies; errors are gRPC statuses; no crash. One-directional oracle: refusing is never a violation.',
+  note='Trusted: our structured credential model (identity sets known by construction), the harness pod table for node authorization, crypto/x509 parsing. TTL bound uses a timestamp read after the call (load-insensitive side). Not covered: cluster aliases, HTTP authn path, TokenReview audiences, root rotation, concurrency. Known findings: node authorizer does not compare trust domains; non-IA5 OIDC sub yields an unparseable leaf.',
+)
+
+CLAIMED['C18'] = dict(
+  category='fault_enumeration',
+  technique='runtime monitoring with fault enumeration: the real SecretManagerClient is driven against a recording, scripted fake CA (really signs CSRs) and a virtual delayed queue injected through hook H3; a reference model is compared after every operation of enumerated CA fault sequences and PRNG schedules; race detector over a free-running stress stratum; file-mounted certificate stratum with racing republication',
+  text='Held on every schedule executed: all CA fault sequences of length <= 4 over {ok, sign error, root error} x {immediate, delayed} (exhaustive stratum), hundreds/thousands of PRNG interleavings of GenerateSecret bursts, gate releases, renewal firings (current and stale), trust-bundle updates and root changes; per observation: key/cert pair match, roots contained, exactly one CSRSign per attempt and none overlapping, exactly one renewal per certificate with delay bounded by expiry and grace, failure not sticky, root change announced exactly once; rotateTime swept over ratio x jitter grids.',
+  note='Trusted: the fake CA and virtual queue (harness code), the reference model, one-sided time bounds computed from timestamps taken before the call. Not driven: sdsservice push delivery, citadel client retries, real delay queue timing. Three defects found by this check were fixed (see known-findings.txt).',
+)
